@@ -273,6 +273,16 @@ inline const char* dispatch_class(int n, int dim_max, long p) {
   return b <= 64 ? "bf64" : b <= 128 ? "bf128" : "cns128";
 }
 
+// Workload steering only: the engine documents (by throwing std::overflow_error) that it refuses inputs whose simplices
+// cannot be numbered in 128 bits together with a coefficient, and its dimension type is 8 bits wide.  The big configs
+// stay inside that domain with a margin: C(n, min(n/2, dim_max+2)) * 2^coeffbits < 2^116 and dim_max <= 60.
+inline bool encodable(int n, int dim_max, long p) {
+  if (dim_max > 60) return false;
+  int k = std::min(n / 2, dim_max + 2);
+  double lg = (std::lgamma(n + 1.0) - std::lgamma(k + 1.0) - std::lgamma(n - k + 1.0)) / std::log(2.0);
+  return lg + log2up(p - 1) < 116.0;
+}
+
 // ---------------------------------------------------------------------------------------------- big generators
 // 12-vertex flag triangulation of the projective plane (no empty triangle, no K4: its clique complex is the surface).
 // Found by stellar subdivision of the 6-vertex RP^2; nothing about it is trusted: the oracle recomputes everything
